@@ -994,6 +994,31 @@ func writeReplay(sc *scratch, id, tier string, v *violationRec) string {
 		}
 		return false
 	}
+	if v.Race && v.Violation.Oracle == "C20/O3-data-race" {
+		// the race detector suppresses repeated reports within a process, so a race
+		// finding is minimised by re-executing candidate tapes in fresh -race subprocesses
+		min, execs := shrinkInSubprocess(sc, bin, env, &rf, v.Class, 60, 150*time.Second)
+		if execs > 0 {
+			rf.Tape = min
+			rf.Shrink = json.RawMessage(fmt.Sprintf(`{"subprocess_executions":%d,"draws_before":[%d,%d,%d,%d],"draws_after":[%d,%d,%d,%d]}`, execs,
+				len(v.OrigTape[0]), len(v.OrigTape[1]), len(v.OrigTape[2]), len(v.OrigTape[3]), len(min[0]), len(min[1]), len(min[2]), len(min[3])))
+			write()
+			// refresh the traces from the minimised tape
+			outp := filepath.Join(sc.dir, "replay-result.json")
+			if res := runWorker(bin, env, 5*time.Minute, 64<<20, "replay", "-file", path, "-out", outp); res.err == nil {
+				var rr violationRec
+				if b, err := os.ReadFile(outp); err == nil && json.Unmarshal(b, &rr) == nil && rr.Violation != nil && rr.Class == v.Class {
+					rf.History, rf.FaultTrace, rf.Message, rf.Steps = rr.History, rr.FaultTrace, rr.Violation.Message, rr.Steps
+					rf.ScheduleTrace = nil
+					for _, st := range rr.SchedTrace {
+						rf.ScheduleTrace = append(rf.ScheduleTrace, fmt.Sprintf("seq=%d task %d -> %d at %s", st.Seq, st.From, st.To, siteName(sc, st.Site)))
+					}
+					v.History = rr.History
+					write()
+				}
+			}
+		}
+	}
 	rf.Reproduced = check()
 	if !rf.Reproduced && len(v.OrigTape[0])+len(v.OrigTape[1])+len(v.OrigTape[2])+len(v.OrigTape[3]) > 0 {
 		// fall back to the un-minimised tape (DESIGN.md §7.3)
@@ -1066,6 +1091,74 @@ func cmdReplay(args []string) int {
 	}
 	fmt.Printf("VIOLATION property=%s replay=%s\n", rf.Property, path)
 	return 1
+}
+
+// shrinkInSubprocess minimises rf.Tape by deleting chunks while a fresh worker
+// process keeps reporting the same violation class. Coarse (few executions: each
+// costs a process start), good enough to drop most of a tape.
+func shrinkInSubprocess(sc *scratch, bin string, env []string, rf *replayFile, class string, maxExec int, maxWall time.Duration) (tape, int) {
+	start := time.Now()
+	execs := 0
+	cur := rf.Tape
+	tmp := filepath.Join(sc.dir, "shrink-candidate.json")
+	outp := filepath.Join(sc.dir, "shrink-result.json")
+	test := func(c tape) bool {
+		if execs >= maxExec || time.Since(start) > maxWall {
+			return false
+		}
+		execs++
+		cand := *rf
+		cand.Tape = c
+		b, _ := json.Marshal(cand)
+		os.WriteFile(tmp, b, 0o644)
+		res := runWorker(bin, env, 3*time.Minute, 64<<20, "replay", "-file", tmp, "-out", outp)
+		if res.err != nil {
+			return false
+		}
+		var rr violationRec
+		rb, _ := os.ReadFile(outp)
+		return json.Unmarshal(rb, &rr) == nil && rr.Violation != nil && rr.Class == class
+	}
+	clone := func(t tape) tape {
+		var c tape
+		for i := range t {
+			c[i] = append([]draw(nil), t[i]...)
+		}
+		return c
+	}
+	// the original must reproduce at all, otherwise there is nothing to minimise against
+	if !test(cur) {
+		return cur, 0
+	}
+	// 1. drop whole non-workload streams (a race needs no particular interleaving: the
+	//    detector sees no ordering between tasks however they are scheduled)
+	for _, st := range []int{1, 3, 2} {
+		if len(cur[st]) == 0 {
+			continue
+		}
+		c := clone(cur)
+		c[st] = nil
+		if test(c) {
+			cur = c
+		}
+	}
+	// 2. delete chunks of the workload stream, coarse to fine
+	for k := len(cur[0]) / 2; k >= 4; k /= 2 {
+		for i := len(cur[0]) - k; i >= 0; i -= k {
+			if execs >= maxExec || time.Since(start) > maxWall {
+				return cur, execs
+			}
+			if i+k > len(cur[0]) {
+				continue
+			}
+			c := clone(cur)
+			c[0] = append(append([]draw(nil), cur[0][:i]...), cur[0][i+k:]...)
+			if test(c) {
+				cur = c
+			}
+		}
+	}
+	return cur, execs
 }
 
 // ---------------------------------------------------------------------------
